@@ -2,6 +2,5 @@ SPECIFICATION Spec
 CONSTANTS
   MaxDepth = 1
   Mint = TRUE
-CONSTANT U <- MCU
 INVARIANTS TypeOK NoMinting DeadStaysDead
 CHECK_DEADLOCK FALSE
